@@ -17,7 +17,8 @@ EXPLANATION = (
     '(0 connect, 1 START TRANSACTION, then each statement, last COMMIT; one more value = never) with '
     'pymysql.err.<class>(code): class in {Operational, Internal, Integrity, Programming} or a ValueError, code a '
     'symbolic integer in -1..100000. Symbolic: op_a, class_a, code_a for every planned fault (quick: up to 2 faults, '
-    '1..3 statements; thorough: 2 faults everywhere and 3 faults for the one-statement transaction). Oracle (written from the property text, not from the module\'s tuples): the '
+    '1..3 statements; thorough: 2 faults everywhere, and 3 faults for the one-statement transaction with the first '
+    'fault at its statement). Oracle (written from the property text, not from the module\'s tuples): the '
     'attempt is retried iff (Operational and code in {1040,1213,2003,2013}) or (Internal and code = 1205), otherwise '
     'that very exception object is raised at once; the committed store is unchanged whenever an attempt begins and '
     'after a raised error, and equals initial + the writes exactly once after success; one back-off call per retry '
@@ -53,7 +54,8 @@ def run(R):
     pct = 400 if quick else 1300
     R.bounds = {'entry points': 'function under @transaction(db[, read_only]) with 1..3 statements (just_execute, '
                                 'execute_update, execute_insertone); Database.execute_many; Database.' + '/'.join(SINGLE),
-                'faults': '<= 2 planned faults (quick) / <= 3 (thorough), one per attempt, at any operation or never',
+                'faults': '<= 2 planned faults (quick) / <= 3 (thorough; with 3 the first one hits the first statement), one per '
+                          'attempt, at any operation or never',
                 'error classes': 'OperationalError, InternalError, IntegrityError, ProgrammingError, ValueError',
                 'error code': '-1..100000 (symbolic)', 'configurations': [list(p) for p in plan(R.tier)]}
     R.assume(
@@ -83,6 +85,8 @@ def run(R):
     for entry, nstmt, ro, nf, nfix in plan(R.tier):
         ops = H.n_ops(entry, nstmt)
         for fixed in itertools.product(range(ops + 1), repeat=nfix):
+            if nf >= 3 and fixed[0] != 2:
+                continue   # three-fault plans: the first fault always hits the first statement (keeps thorough in budget)
             # a fixed op that is never reached ends the plan: drop shards that only differ behind it
             dead = [i for i, f in enumerate(fixed) if f == ops]
             if dead and any(f != ops for f in fixed[dead[0]:]):
